@@ -167,6 +167,8 @@ structure St where
   pendingAgree : Option String := none
   /-- the monitor `pendingAgree` is reported under -/
   pendingMon : String := "success_without_agreement"
+  /-- … and its classifier ("-" unless the situation is a listed known finding) -/
+  pendingClass : String := "-"
 
 def sections (s : String) : List (List String) := (s.splitOn " ; ").map words
 
@@ -327,13 +329,13 @@ def stepRunZ (s : St) (impl : String) : St × StepOut := Id.run do
   -- (a forged Initial sealed with the public Initial keys, …) can make the server side fail while the client completes
   let mut pending : Option String := none
   let mut pendingMon := "success_without_agreement"
-  -- Finding of the unchanged tree (upstream logic, documented in fixes/C13-finished-blocked-behind-early-data.diff): a
-  -- client whose congestion window is filled by an ACCEPTED 0-RTT flight that is still unacknowledged when the
-  -- handshake keys arrive (the server's 1-RTT ACKs were lost, or dropped by the client: undecryptable queue full)
-  -- may not send its Finished (congestion limited: ACKs only) and arms no PTO (no crypto packet outstanding, handshake
-  -- not confirmed): both sides sit until their idle timeouts and fail cleanly. Nothing is delivered twice, both sides
-  -- return errors and release their state, so the property's text holds; only "the handshake converges under bounded
-  -- loss" does not, and that is not demanded of these (lossy, large early data) cases.
+  -- Known finding C13-finished-blocked-behind-early-data (fixes/C13-finished-blocked-behind-early-data.diff): a client
+  -- whose congestion window is filled by an ACCEPTED 0-RTT flight that is still unacknowledged when the server's
+  -- Handshake flight arrives (the server's 1-RTT ACKs were lost, or dropped by the client: undecryptable queue full)
+  -- may not send its Finished (congestion limited: ACKs only), and the anti-deadlock PTO does not probe because
+  -- bytes_in_flight is not 0: both sides sit until their idle timeouts and then fail cleanly. Nothing is delivered
+  -- twice and both sides release their state; what does not hold is convergence under bounded loss. Reported under
+  -- its own classifier at the end of the case (not when an attack the protocol permits was acted upon).
   let bigEarly := s.scn.get "zsize" == "cwnd" || s.scn.get "zsize" == "window"
   let stalled := bigEarly && mode == "accept" && s.nFault + s.nInj > 0 && np == 0 && nr == 0 &&
     (m.get "write" == "E:idle_timeout" || m.get "write" == "E:handshake_timeout")
@@ -366,10 +368,15 @@ def stepRunZ (s : St) (impl : String) : St × StepOut := Id.run do
     fails := fails ++ [("state_not_released", "-", impl)]
   let tag := if hs == "complete" then (if b1 (m.get "c0") then "zrtt:accepted" else if b1 (m.get "early") then "zrtt:rejected" else "zrtt:not_attempted") else s!"zrtt:{hs}"
   let tag := if stalled then "zrtt:stalled_behind_unacked_early_data" else tag
+  let mut pendingClass := "-"
+  if stalled then
+    pending := some s!"0-RTT accepted, early data larger than the congestion window, bounded faults: the handshake stalls until the idle timeouts: {impl}"
+    pendingMon := "bounded_faults_do_not_converge"
+    pendingClass := "finished_blocked_behind_unacked_early_data"
   let tag := if s.scn.get "client" == "chrome" then tag ++ ":parrot" ++ (if b1 (m.get "resumed") then ":resumed" else "") else tag
   -- for the convergence monitor the outcome of the dial is the outcome of the handshake
   let m' : KV := ("dial", if hs == "complete" || stalled then "nil" else hs) :: m.filter (fun p => p.1 != "dial")
-  return ({ s with ran := true, run := m', ntrace := natOf (m.get "ntrace"), pendingAgree := pending, pendingMon := pendingMon }, { model := impl, tags := [tag, "zrtt:" ++ mode], fails := fails })
+  return ({ s with ran := true, run := m', ntrace := natOf (m.get "ntrace"), pendingAgree := pending, pendingMon := pendingMon, pendingClass := pendingClass }, { model := impl, tags := [tag, "zrtt:" ++ mode], fails := fails })
 
 def stepRun (s : St) (impl : String) : St × StepOut := Id.run do
   let m := kvOf (words impl)
@@ -506,7 +513,7 @@ def final (s : St) : List (String × String × String) :=
     [("bounded_faults_do_not_converge", "-", s!"dial={s.run.get "dial"} with {s.nFault} faults and {s.nInj} ineffective injections")]
   else []) ++
   (match s.pendingAgree with
-   | some impl => if complete && !s.effective && !s.harmed then [(s.pendingMon, "-", impl)] else []
+   | some impl => if complete && !s.effective && !s.harmed then [(s.pendingMon, s.pendingClass, impl)] else []
    | none => [])
 
 def main : IO Unit := run { init := ({} : St), step := step, final := final }
